@@ -79,6 +79,8 @@ def oracle_bands(rows, n, kind='plain', cols=3):
             h = bd.shape[0]
             if not np.array_equal(bd, img[nxt:nxt + h]):
                 return True, 'pixels', 'band (%d,%d) of %d rows does not equal rows %d..%d' % (i, n, rows, nxt, nxt + h)
+            if int(bh['NAXIS2']) != h:
+                return True, 'naxis2-' + kind, 'band (%d,%d) of %d rows: header NAXIS2=%s for %d data rows' % (i, n, rows, bh['NAXIS2'], h)
             if h > 0:
                 bw = WCS(bh, naxis=2)
                 a = bw.all_pix2world([[1, 0]], 0)
@@ -195,7 +197,7 @@ def k_rows(rep, tier):
                bounds='rows in [1,%d] symbolic, band index i symbolic in [0,n), band count n enumerated 1..64 (one query set per n); python ints as 32-bit vectors (no wrap in range), floats as IEEE binary64 RNE, int() as RTZ' % MAXROWS,
                assumes=['slice: the statements assigning row_min and row_max', 'NAXIS2 is a python int'])
     try:
-        fac, text = slicer.slice_function(F, 'load_image_band', targets=['row_min', 'row_max'], params=['header', 'band'], returns=['row_min', 'row_max'])
+        fac, text = slicer.slice_function(F, 'load_image_band', targets=['row_min', 'row_max'], params=['header', 'band'], returns=['row_min', 'row_max'], closure=True, closure_exclude=['header', 'band', 'hdulist', 'compressed'])
     except slicer.AnchorMissing as e:
         rep.inconc('anchor-missing %s' % e)
         return
@@ -203,8 +205,13 @@ def k_rows(rep, tier):
     rep.sample(dict(kernel='K-rows', slice=text))
     import multiprocessing as mp
     to = 40000 if tier == 'quick' else 600000
-    with mp.get_context('fork').Pool(16) as pool:
-        results = pool.map(_rows_worker, [(n, to) for n in range(1, 65)], chunksize=1)
+    try:
+        with mp.get_context('fork').Pool(16) as pool:
+            results = pool.map(_rows_worker, [(n, to) for n in range(1, 65)], chunksize=1)
+    except Exception as e:
+        rep.inconc('K-rows: the row arithmetic slice is not executable on bit-precise values (%r); the concrete replay oracle below still runs' % (e,))
+        rep.end_kernel()
+        return
     done = set()
     for n, res in zip(range(1, 65), results):
         for name, r, m, dt in res:
@@ -243,7 +250,7 @@ def k_header(rep):
                assumes=['slice: row arithmetic replaced by symbolic ints; statements assigning header[...] and the return statements kept with their enclosing ifs'])
     try:
         fac, text = slicer.slice_function(F, 'load_image_band', targets=["header['NAXIS2']", "header['CRPIX2']", 'return', 'data'],
-                                          params=['header', 'hdulist', 'compressed', 'row_min', 'row_max', 'NAXIS', 'a', 'hdu_index', 'cube_index'])
+                                          params=['header', 'hdulist', 'compressed', 'row_min', 'row_max', 'NAXIS', 'a', 'hdu_index', 'cube_index', 'band'])
     except slicer.AnchorMissing as e:
         rep.inconc('anchor-missing %s' % e)
         return
@@ -265,7 +272,7 @@ def k_header(rep):
                 class Sec:
                     section = FakeData()
                 a = [Sec(), Sec()]
-                out = f(hdr, hl, compressed, rmin, rmax, naxis, a, 0, 0)
+                out = f(hdr, hl, compressed, rmin, rmax, naxis, a, 0, 0, (core.integer('band_i'), core.integer('band_n')))
                 if not (isinstance(out, tuple) and len(out) == 2):
                     raise core.Unsupported('unexpected return shape')
                 data, oh = out
